@@ -5,6 +5,7 @@ package gnet
 
 import (
 	"fmt"
+	"hash/crc32"
 	"net"
 	"strings"
 	"testing"
@@ -125,6 +126,32 @@ func newC15lc(n, max int) func() seqmc.Instance {
 	}
 }
 
+// forgeCRC appends 4 bytes to prefix so that the IEEE CRC-32 of the result is target: the hash
+// policy is a function of the checksum only, so addresses with extreme checksums (sign bit,
+// all ones, zero) are the inputs that matter for its arithmetic.
+func forgeCRC(prefix []byte, target uint32) []byte {
+	tab := crc32.IEEETable
+	var rev [256]byte
+	for i := 0; i < 256; i++ {
+		rev[tab[i]>>24] = byte(i)
+	}
+	var idx [4]byte
+	r := ^target
+	for i := 3; i >= 0; i-- {
+		j := rev[r>>24]
+		idx[i] = j
+		r = (r ^ tab[j]) << 8
+	}
+	reg := ^crc32.ChecksumIEEE(prefix)
+	out := append([]byte{}, prefix...)
+	for i := 0; i < 4; i++ {
+		b := byte(reg) ^ idx[i]
+		out = append(out, b)
+		reg = tab[idx[i]] ^ (reg >> 8)
+	}
+	return out
+}
+
 func c15Addresses() []net.Addr {
 	long := strings.Repeat("p", 300)
 	as := []net.Addr{
@@ -136,6 +163,12 @@ func c15Addresses() []net.Addr {
 	}
 	for i := 0; i < 40; i++ {
 		as = append(as, &net.TCPAddr{IP: net.IPv4(192, 168, byte(i), byte(i*7)), Port: 1000 + i*13})
+	}
+	for _, t := range []uint32{0, 1, 0x7FFFFFFF, 0x80000000, 0x80000001, 0xFFFFFFFF, 0xFFFFFFFE} {
+		f := forgeCRC([]byte("addr:"), t)
+		if crc32.ChecksumIEEE(f) == t {
+			as = append(as, strAddr(string(f)))
+		}
 	}
 	return as
 }
